@@ -12,6 +12,7 @@ type genParams struct {
 	MinNodes                              int  // lower bound of the node budget (0: 1)
 	Chain                                 int  // > 0: the forest starts with a chain of only children this deep (+ up to 24 more levels)
 	Hostile                               bool // names may contain '/', '.', leading blanks, bullets
+	FanKids                               int  // > 0: every child of the wide node has this many children (leaves) of its own
 	Fan                                   int  // > 0: one node gets this many (up to half as many more) children, every fifth with children of its own
 }
 
@@ -121,7 +122,14 @@ func randForest(rng *rand.Rand, p genParams) []*rtree {
 			depth[t] = depth[par] + 1
 			all = append(all, t)
 			budget--
-			if k%5 == 4 {
+			for g := 0; g < p.FanKids; g++ {
+				u := &rtree{name: []string{fmt.Sprintf("k%d", 1+g/nc%nc), fmt.Sprintf("k%d", 1+g%nc)}}
+				t.kids = append(t.kids, u)
+				depth[u] = depth[t] + 1
+				all = append(all, u)
+				budget--
+			}
+			if k%5 == 4 && p.FanKids == 0 {
 				for g := 0; g <= rng.Intn(2); g++ {
 					u := &rtree{name: pick()}
 					t.kids = append(t.kids, u)
